@@ -251,7 +251,46 @@ def _behaviours(ctx, tmp, num, seed):
     return out
 
 
+def _replay(ctx):
+    rep = json.load(open(ctx.replay)).get("replay") or {}
+    rec = rep.get("record", rep)
+    ctx.rule = "replay of one stored record on the tree under test"
+    loop = asyncio.new_event_loop()
+    asyncio.set_event_loop(loop)
+    tmp = tempfile.mkdtemp(prefix="c05r_")
+    try:
+        async def go():
+            if rec.get("kind") == "in":
+                r, problems = _run_inbound(ctx.rng, rec["sizes"], tuple(rec["corrupt"]), rec["reads"])
+                return [(r, problems)]
+            return await _outbound([rec["n"]] if rec.get("c0", 0) == 0 else [1024, rec["n"]], ctx.rng)
+        out = loop.run_until_complete(go())
+        recs = []
+        for r, problems in out:
+            recs.append(r)
+            ctx.case(json.dumps(r))
+            for pr in problems:
+                ctx.violation(f"replay: {pr}", r)
+        tf = os.path.join(tmp, "recs.ndjson")
+        with open(tf, "w") as f:
+            for r in recs:
+                f.write(json.dumps(r) + "\n")
+        res = ctx.tlc("session/SecureFraming_Trace", "SecureFraming_Trace.cfg", env={"TRACE_FILE": tf}, expect_violation=True,
+                      require_cover=False, coverage=False, label="replay: trace validation")
+        if not res.ok:
+            ctx.violation(f"replayed record is not a behaviour of SecureFraming ({res.violation['name']})", {"records": recs})
+        else:
+            ctx.trace_ok(len(recs))
+        ctx.sample({"replayed": recs[0]})
+    finally:
+        loop.close()
+        asyncio.set_event_loop(None)
+        shutil.rmtree(tmp, ignore_errors=True)
+
+
 def run(ctx):
+    if ctx.replay:
+        return _replay(ctx)
     ctx.rule = ("frame-size lists x corruption x read sequences; TLC explores them exhaustively for the tiny constants and over "
                 "boundary cut classes for the real ones; a case is distinct by (sizes, corruption, reads); non-trivial if >= 1 frame is fed")
     ctx.assume("AEAD is ideal: a frame with any flipped bit (length prefix = AAD, ciphertext, tag) or cut at a wrong offset never authenticates",
